@@ -41,6 +41,23 @@ def evaluate(case):
         # accepted: then the alphabet contract applies to it
         table = sf.get_semantic_constraints()
         f = _alphabet_contract(table, sample=8)
+        if f is None and case.get("picks"):
+            # strings over the alphabet of this (accepted) table: decodable, and the molecule obeys the table
+            alphabet = sorted(sf.get_semantic_robust_alphabet())
+            picks = case["picks"]
+            for k in range(0, len(picks), 12):
+                s = "".join(alphabet[i % len(alphabet)] for i in picks[k:k + 12])
+                r = O.decode(s)
+                if r[0] != "ok":
+                    f = Fail("string:decoder_raises", selfies=s[:300], table=str(case["arg"])[:300], got=r)
+                    break
+                try:
+                    f = O.valence_fail(refsmiles.read(r[1]), table)
+                except Exception as e:  # noqa - a table with values the capacity lookup cannot compare
+                    f = Fail("string:output_not_judgeable_under_accepted_table", selfies=s[:300], table=str(case["arg"])[:300], error=repr(e)[:200])
+                if f is not None:
+                    f.details.update(selfies=s[:300], table=str(case["arg"])[:300])
+                    break
         O.forget_table()
         if f is not None:
             doc = R.table_is_documented(table)
@@ -147,7 +164,7 @@ def gen_case(ch):
             return None  # not JSON-able: exercised in C12's state machine instead
         if not isinstance(arg, (dict, str)) and arg is not None and not isinstance(arg, (int, float, list)):
             return None
-        return dict(kind="candidate_invalid", arg=arg, klass=klass)
+        return dict(kind="candidate_invalid", arg=arg, klass=klass, picks=[ch.int(0, 4000) for _ in range(36)])
     spec = T.gen_valid_table(ch)
     n = ch.int(1, 60)
     case = dict(kind="strings", table=spec, picks=[ch.int(0, 4000) for _ in range(n)])
